@@ -9,7 +9,7 @@ SB=/root/scratch/vs-$TAG
 rm -rf $SB; mkdir -p $SB
 git -C /repo worktree add -q --detach $SB/repo HEAD || exit 2
 ( cd $SB/repo && git apply "$PATCH" ) || { echo "patch does not apply"; git -C /repo worktree remove --force $SB/repo; rm -rf $SB; exit 2; }
-rsync -a --exclude .git --exclude replays --exclude seeded /verif/ $SB/verif/
+rsync -a --exclude .git --exclude replays --exclude seeded ${SNAP:-/verif}/ $SB/verif/
 sed -i "s#\"/repo#\"$SB/repo#g" $SB/verif/harness/Cargo.toml
 ( cd $SB/verif && VERIF_REPO=$SB/repo NSHOW=${NSHOW:-1} timeout 3000 python3 tools/runall.py quick ${SEED:-1} "$@" 2>&1 | grep -v "^WARNING" | cut -c1-300 )
 git -C /repo worktree remove --force $SB/repo
